@@ -307,7 +307,7 @@ pub fn old_paths_case(which: usize, flag: bool) -> Case {
 pub fn cases(tier: &str) -> Vec<Case> {
     let mut v = vec![];
     for name in ["staking", "crates.io:staking", "treasury"] {
-        for ver in ["0.4.18", "0.4.20", "1.0.0", "1.1.0", "2.0.0", "0.4.19", "garbage"] {
+        for ver in ["0.4.18", "0.4.20", "1.0.0", "1.1.0", "2.0.0", "0.4.19", "0.4.21", "0.4.17", "1.0.1", "1.0.0+build", "1.0.0-rc1", "0.9.9", "garbage", ""] {
             for which in 0..3 {
                 v.push(gate_case(name, ver, which));
             }
